@@ -210,6 +210,9 @@ func getSourceLines(file string, line, around int) []string {
 		return nil
 	}
 
+	// around comes from StackSource: clamp it so that line+around cannot overflow.
+	around = min(around, len(lines))
+
 	start := max(0, line-around-1)
 	end := min(len(lines), line+around)
 
